@@ -14,7 +14,8 @@ THEOREMS = [
     "C16_listings_exact", "C16_registries_determined_by_listings", "C16_probe_finds_nothing",
     "C16_events_exact_refuted", "C16_events_exact_refuted_multi_removal",
     "C16_events_exact_refuted_adapter_overwrite", "C16_events_exact_partial",
-    "C16_unregister_returns_removed", "C16_replace_order",
+    "C16_unregister_returns_removed", "C16_replace_order", "C16_pruning_never_hides",
+    "C16_queryUtility_from_listings",
 ]
 RULE = ("histories of 5-40 calls of the eight register*/unregister* methods (+ re-__init__) on one Components "
         "over a generated interface/class world, with identical / equal-but-distinct / unhashable components, "
@@ -350,7 +351,7 @@ def gen_case(rng, permit, n_steps):
 
 def generate(run, tier):
     rng = run.rng("gen")
-    n = 260 if tier == "quick" else 4000
+    n = 240 if tier == "quick" else 6000
     cases = []
     for _ in range(n):
         permit = rng.choices(["none", "F9", "F11"], [76, 12, 12])[0]
